@@ -70,6 +70,10 @@ CHECKS = {
  "C18": ("sched", "stateless model checking: cooperative scheduler + depth-first search over all schedules within a preemption bound at statement-level scheduling points of an instrumented overlay of the real code; separate free-running race-detector pass",
          "14 scenarios of 2-3 goroutines x 1-2 calls sharing one Context, the same inline/heap operands and the package tables (tableExp10 above 128, ln10 tables, WithPrecision, Modf/upscale temporaries, readers vs arithmetic); every schedule with <= 1-2 preemptions is executed; each thread must return its solo result and the deep snapshot of operands, Context and all 26 package-level variables must be unchanged; schedules that fail are replayed twice (determinism) and written as replayable choice lists; plus 300/2000 free-running repetitions under -race.",
          "Statement-level sequential consistency; composite calls are preempted at every site but only at its first 2 (4) dynamic occurrences per thread (reported as a cap, exhaustive=false); T<=3.", "4/C18"),
+
+ "C04": ("opspace", "bounded-exhaustive enumeration of every exported entry point x receiver x argument tuple (generated per parameter type from finite pools) on the instrumented real code under a recover guard and a deterministic loop-fuel budget",
+         "All 161 exported functions and methods (list read from the AST of the tree under test; a missing driver is a harness error) are called by reflection with every tuple of the per-type pools (complete product up to 40000 tuples per method, otherwise a fixed-stride sub-lattice), incl. all 256 format bytes, all printable fmt verbs x 32 flag subsets, every string of <= 4 tokens for the parsers, contexts with precision 0 and three trap sets, operands at the package limits; no panic (BigInt: only where math/big panics too), no loop-fuel exhaustion, well-formed Decimals after every successful call.",
+         "Hang detection counts loop iterations inside package apd only; exponent limits are demanded of text input only (as the property states).", "4/C04"),
 }
 
 NOT_YET = {}
